@@ -117,6 +117,63 @@ def _staged_read_in_block(q_ir, new, buf, new_sym=None):
     return bool(hit)
 
 
+def _writes_and_reads(stmts):
+    """-> (set of names written/reduced, set of names read, has_reduce) over a statement list (deep)"""
+    w, r, red = set(), set(), [False]
+
+    def ve(e):
+        if isinstance(e, (LoopIR.Read, LoopIR.WindowExpr)):
+            r.add(str(e.name))
+        for _, _, c in irx.expr_children_attr(e):
+            ve(c)
+
+    def vs(s_):
+        if isinstance(s_, LoopIR.Assign):
+            w.add(str(s_.name))
+        if isinstance(s_, LoopIR.Reduce):
+            w.add(str(s_.name))
+            red[0] = True
+        if isinstance(s_, LoopIR.WriteConfig):
+            w.add("cfg:" + str(s_.field))
+        if isinstance(s_, LoopIR.Call):
+            red[0] = True  # unknown effect
+        for _, _, e in irx.expr_children_attr(s_):
+            ve(e)
+        for _, _, c in irx.stmt_children(s_):
+            vs(c)
+
+    for s_ in stmts:
+        vs(s_)
+    return w, r, red[0]
+
+
+def _body_not_idempotent(body):
+    """re-executing an iteration may change the result: the body reduces, calls, or reads a buffer it writes"""
+    w, r, red = _writes_and_reads(body)
+    return red or bool(w & r)
+
+
+def _aliased_access_in_block(p_ir, blk, buf):
+    """does the block access `buf` through a window statement declared outside the block?"""
+    alias = set()
+    for _, s_ in irx.all_stmts(p_ir):
+        if isinstance(s_, LoopIR.WindowStmt) and (str(s_.rhs.name) == buf or str(s_.rhs.name) in alias):
+            alias.add(str(s_.name))
+    if not alias:
+        return False
+    inner = {str(s_.name) for s_ in _flatten(blk) if isinstance(s_, LoopIR.WindowStmt)}
+    w, r, _ = _writes_and_reads(blk)
+    return bool(((w | r) & alias) - inner)
+
+
+def _flatten(stmts):
+    out = []
+    for s_ in stmts:
+        out.append(s_)
+        out += _flatten([c for _, _, c in irx.stmt_children(s_)])
+    return out
+
+
 def _has_top_binder(stmts):
     return any(isinstance(s, (LoopIR.Alloc, LoopIR.WindowStmt)) for s in stmts)
 
@@ -165,6 +222,8 @@ def cause_of(ev, p, q, kind, detail=None):
         if len(strs) >= 2:
             new = strs[1]
         if buf is not None and new is not None and q_ir is not None:
+            if _aliased_access_in_block(p_ir, blk, buf):
+                parts.append("aliased-access-in-block")
             nsym = _new_alloc_sym(p_ir, q_ir, new)
             parts.append("staged-copy-read-in-block" if _staged_read_in_block(q_ir, new, buf, nsym) else "staged-copy-only-written")
     if op == "sink_alloc" and spec:
@@ -215,6 +274,8 @@ def cause_of(ev, p, q, kind, detail=None):
             pass
         if blk and isinstance(blk[0], LoopIR.For) and not (isinstance(blk[0].lo, LoopIR.Const) and blk[0].lo.val == 0):
             parts.append("loop-lo-nonzero")
+        if blk and isinstance(blk[0], LoopIR.For) and _body_not_idempotent(blk[0].body):
+            parts.append("body-not-idempotent")
     return ",".join(x for x in parts if x) or "-"
 
 
